@@ -15,7 +15,7 @@ PID = "C05"
 
 def api_key(why):
     w = why.lower()
-    for pat, k in (("did not terminate", "hang"), ("value without send", "value-without-send"), ("twice", "payload-twice"),
+    for pat, k in (("terminate: crashed", "crash"), ("did not terminate", "hang"), ("value without send", "value-without-send"), ("twice", "payload-twice"),
                    ("disconnect although", "spurious-disconnect"), ("pending although", "stale-pending"),
                    ("not ready although", "stale-not-ready"), ("ready before", "ready-too-early"),
                    ("payload destroyed but", "phantom-payload-drop"), ("waker", "waker-balance"),
